@@ -92,7 +92,12 @@ def check_case(ctx, case):
     m = {a: b for a, b in case["idmap"]}
     brng = random.Random(case["bseed"])
     fkey = "+".join(c01.features(pg)) or "plain"
-    g, g2 = c01._variant(pg, variant, brng, m)
+    try:
+        g, g2 = c01._variant(pg, variant, brng, m)
+    except Exception as e:  # noqa: BLE001
+        ctx.violate(f"C03/variant-raises:{type(e).__name__}/{cls}/{variant}/{fkey}", f"constructing the {variant} variant raised {e!r}", case)
+        ctx.case()
+        return
     ctx.case((sem.canon_key(pg), variant), len(pg["atoms"]) >= 2 and len(pg["bonds"]) >= 1)
     descs = list(pg["astereo"].values()) + list(pg["bstereo"].values()) + [d for v in list(pg["achange"].values()) + list(pg["bchange"].values()) for d in v.values()]
     if len(pg["atoms"]) >= 20:
